@@ -229,6 +229,9 @@ func TestCheck(t *testing.T) {
 		return true
 	}
 	if cfg.Replay != "" {
+		if rec.ReplayFuzzRapid(t, cfg.Replay, fuzzProps) {
+			return
+		}
 		var c scen.Case
 		if _, err := run.LoadReplay(cfg.Replay, &c); err != nil {
 			t.Fatal(err)
